@@ -9,6 +9,9 @@ def step (line : String) : String :=
   | "c08t" :: a => Drv.C08.opT a
   | "c08u" :: a => Drv.C08.opU a
   | "c09" :: a => Drv.C09.op a
+  | "c18h" :: a => Drv.C18.opH a
+  | "c07" :: a => Drv.C18.opC a
+  | "c07xy" :: a => Drv.C18.opXY a
   | "c10" :: a => Drv.C10.op a
   | "c02" :: a => Drv.C02.op a
   | "c20f" :: a => Drv.C20.opF a
